@@ -2,6 +2,7 @@ package harness
 
 import (
 	"encoding/json"
+	"fmt"
 	"os"
 	"sort"
 	"strings"
@@ -51,7 +52,17 @@ func doReqH(h fasthttp.RequestHandler, method, path string, kv ...string) *fasth
 	for i := 0; i+1 < len(kv); i += 2 {
 		rc.Request.Header.Set(kv[i], kv[i+1])
 	}
-	h(rc)
+	func() {
+		// a panic of the code under test is an observation (status 599), not a dead driver
+		defer func() {
+			if r := recover(); r != nil {
+				rc.Response.Reset()
+				rc.Response.SetStatusCode(599)
+				rc.Response.SetBodyString(fmt.Sprint("PANIC: ", r))
+			}
+		}()
+		h(rc)
+	}()
 	return rc
 }
 
